@@ -42,14 +42,14 @@ theorem ejoin_typed {wn : WalkFn σ} (hwn : NodeOK cfg cx F wn) (path : Path) (s
     (hen : e.n = false)
     (hxn : (kindsRes cx (ks.filter (fun k => !cx.elisionKinds.contains k))).abs.n = false)
     (hien : (kindsRes cx (ks.filter (fun k => cx.elisionKinds.contains k))).abs.n = false)
-    (mf : List Sym)
+    (mf : SymSet)
     (hmf : mf = (absRules cx k sep).abs.f ++ (if (absRules cx k sep).abs.n then
-      (kindsRes cx (ks.filter (fun k => !cx.elisionKinds.contains k))).abs.f else []) ++
+      (kindsRes cx (ks.filter (fun k => !cx.elisionKinds.contains k))).abs.f else SymSet.empty) ++
       (kindsRes cx (ks.filter (fun k => cx.elisionKinds.contains k))).abs.f)
     (hc1 : ∀ p ∈ cross (kindsRes cx (ks.filter (fun k => !cx.elisionKinds.contains k))).abs e, p ∈ F)
-    (hc2 : ∀ p ∈ cross e ⟨false, mf, []⟩, p ∈ F)
+    (hc2 : ∀ p ∈ cross e ⟨false, mf, SymSet.empty⟩, p ∈ F)
     (hc3 : ∀ p ∈ cross (absRules cx k sep).abs (kindsRes cx (ks.filter (fun k => !cx.elisionKinds.contains k))).abs, p ∈ F)
-    (hc4 : ∀ p ∈ cross (kindsRes cx (ks.filter (fun k => cx.elisionKinds.contains k))).abs ⟨false, mf, []⟩, p ∈ F)
+    (hc4 : ∀ p ∈ cross (kindsRes cx (ks.filter (fun k => cx.elisionKinds.contains k))).abs ⟨false, mf, SymSet.empty⟩, p ∈ F)
     (items : List (Step × Val)) (hit : ItemsOK cx ks items) (s : σ) (cs : List Chunk) (s' : σ)
     (h : seqM (runAct cfg wn path src (.node k as) pos sep) (elisionActs cfg.hd.elisionKinds items) s = .ok (cs, s')) :
     InLang F ⟨true, (kindsRes cx (ks.filter (fun k => !cx.elisionKinds.contains k))).abs.f ++
@@ -87,10 +87,6 @@ theorem ejoin_typed {wn : WalkFn σ} (hwn : NodeOK cfg cx F wn) (path : Path) (s
       obtain ⟨a', g3, g4⟩ := kindsRes_mem cx _ hxb k' (List.mem_filter.mpr ⟨hk', by simpa using hel⟩)
       rw [g1] at g3; cases g3; rw [hIX] at g4; exact inLang_le g2 g4
   -- the part after an item, by the category of that item
-  have hcross : ∀ (a a' b b' : Abs), a.l = a'.l → b.f = b'.f → (∀ p ∈ cross a' b', p ∈ F) → ∀ p ∈ cross a b, p ∈ F := by
-    intro a a' b b' h1 h2 hh p hp
-    have : cross a b = cross a' b' := by simp only [cross, h1, h2]
-    rw [this] at hp; exact hh p hp
   have htail : ∀ (rest : List (Step × Val)), ItemsOK cx ks rest → ∀ (prev : Val) s cs s',
       seqM (runAct cfg wn path src (.node k as) pos sep) (elisionActsAux cfg.hd.elisionKinds prev rest) s = .ok (cs, s') →
       InLang F (if isKind cfg.hd.elisionKinds prev then ⟨true, mf, IX.l ++ IE.l⟩ else ⟨true, e.f, IX.l ++ IE.l⟩) (syms cfg.hd cs) := by
@@ -118,43 +114,42 @@ theorem ejoin_typed {wn : WalkFn σ} (hwn : NodeOK cfg cx F wn) (path : Path) (s
         · simp only [hnx, if_true] at e3 e4 hr2
           rw [seqM_nil_ok] at hr2
           rw [hr2.1, List.nil_append, syms_append]
-          have := inLang_append e3 e4 (hcross _ IE _ ⟨false, mf, []⟩ rfl rfl hc4)
+          have := inLang_append' e3 e4 (fun x hx y hy => inF_cross hc4 hx hy)
           refine inLang_weaken this (fun hn => by simp [Abs.seq, hien] at hn) ?_ ?_
           · intro x hx
-            simp only [Abs.seq, hien, List.mem_append, Bool.false_eq_true, if_false, List.not_mem_nil, or_false] at hx
-            rw [hmf]
-            simp only [List.mem_append]
-            exact Or.inr hx
+            rcases mem_seq_f.mp hx with hx | ⟨hn, _⟩
+            · show x ∈ mf
+              rw [hmf]
+              exact (SymSet.mem_append _ _ _).mpr (Or.inr hx)
+            · rw [hien] at hn; cases hn
           · intro x hx
-            simp only [Abs.seq, List.mem_append, if_true] at hx
-            simp only [List.mem_append]
-            rcases hx with hx | hx
+            rcases mem_seq_l.mp hx with hx | ⟨_, hx⟩
             · exact hx
-            · exact Or.inr hx
+            · exact (SymSet.mem_append _ _ _).mpr (Or.inr hx)
         · simp only [hnx, Bool.false_eq_true, if_false] at e3 e4 hr2
           have e2 := hSep s1 p2 s2 (seqM_single_ok _ _ _ _ _ (by simpa using hr2))
           rw [syms_append, syms_append]
-          have e34 := inLang_append e3 e4 (hcross _ IX _ e rfl rfl hc1)
-          have e234 := inLang_append e2 e34 (hcross _ S _ IX rfl (by simp [Abs.seq, hxn]) hc3)
+          have e34 := inLang_append' e3 e4 (fun x hx y hy => inF_cross hc1 hx hy)
+          have e234 := inLang_append' e2 e34 (fun x hx y hy => by
+            rcases mem_seq_f.mp hy with hy | ⟨hn, _⟩
+            · exact inF_cross hc3 hx hy
+            · rw [hxn] at hn; cases hn)
           refine inLang_weaken e234 (fun hn => by simp [Abs.seq, hxn] at hn) ?_ ?_
           · intro x hx
-            simp only [Abs.seq, hxn, List.mem_append, Bool.false_eq_true, if_false, List.append_nil] at hx
+            show x ∈ mf
             rw [hmf]
-            simp only [List.mem_append]
-            rcases hx with hx | hx
-            · exact Or.inl (Or.inl hx)
-            · by_cases hsn' : S.n = true
-              · simp only [hsn', if_true] at hx ⊢
-                exact Or.inl (Or.inr hx)
-              · simp only [hsn', if_false] at hx
-                simp at hx
+            rcases mem_seq_f.mp hx with hx | ⟨hsn', hx⟩
+            · exact (SymSet.mem_append _ _ _).mpr (Or.inl ((SymSet.mem_append _ _ _).mpr (Or.inl hx)))
+            · rcases mem_seq_f.mp hx with hx | ⟨hn, _⟩
+              · refine (SymSet.mem_append _ _ _).mpr (Or.inl ((SymSet.mem_append _ _ _).mpr (Or.inr ?_)))
+                rw [if_pos hsn']; exact hx
+              · rw [hxn] at hn; cases hn
           · intro x hx
-            simp only [Abs.seq, hxn, List.mem_append, Bool.false_and, Bool.false_eq_true, if_false, List.append_nil,
-              Bool.and_false, if_true] at hx
-            simp only [List.mem_append]
-            rcases hx with hx | hx
-            · exact hx
-            · exact Or.inl hx
+            rcases mem_seq_l.mp hx with hx | ⟨hn, _⟩
+            · rcases mem_seq_l.mp hx with hx | ⟨_, hx⟩
+              · exact hx
+              · exact (SymSet.mem_append _ _ _).mpr (Or.inl hx)
+            · simp [Abs.seq, hxn] at hn
       by_cases hprev : isKind cfg.hd.elisionKinds prev = true
       · simp only [hprev, if_true] at hr1 ⊢
         rw [seqM_nil_ok] at hr1
@@ -163,18 +158,16 @@ theorem ejoin_typed {wn : WalkFn σ} (hwn : NodeOK cfg cx F wn) (path : Path) (s
       · simp only [hprev, Bool.false_eq_true, if_false] at hr1 ⊢
         have e1 := hE s p1 s1 (seqM_single_ok _ _ _ _ _ (by simpa using hr1))
         rw [List.append_assoc, syms_append]
-        have := inLang_append e1 hmid (hcross _ e _ ⟨false, mf, []⟩ rfl rfl hc2)
+        have := inLang_append' e1 hmid (fun x hx y hy => inF_cross hc2 hx hy)
         refine inLang_weaken this (fun _ => rfl) ?_ ?_
         · intro x hx
-          simp only [Abs.seq, hen, List.mem_append] at hx
-          rcases hx with hx | hx
+          rcases mem_seq_f.mp hx with hx | ⟨hn, _⟩
           · exact hx
-          · simp at hx
+          · rw [hen] at hn; cases hn
         · intro x hx
-          simp only [Abs.seq, List.mem_append] at hx
-          rcases hx with hx | hx
-          · exact List.mem_append.mpr hx
-          · simp at hx
+          rcases mem_seq_l.mp hx with hx | ⟨hn, _⟩
+          · exact hx
+          · cases hn
   cases items with
   | nil =>
     simp only [elisionActs] at h
@@ -190,31 +183,27 @@ theorem ejoin_typed {wn : WalkFn σ} (hwn : NodeOK cfg cx F wn) (path : Path) (s
     rw [syms_append]
     by_cases hv : isKind cfg.hd.elisionKinds v = true
     · simp only [hv, if_true] at e3 e4
-      have := inLang_append e3 e4 (hcross _ IE _ ⟨false, mf, []⟩ rfl rfl hc4)
+      have := inLang_append' e3 e4 (fun x hx y hy => inF_cross hc4 hx hy)
       refine inLang_weaken this (fun _ => rfl) ?_ ?_
       · intro x hx
-        simp only [Abs.seq, hien, List.mem_append] at hx
-        rcases hx with hx | hx
-        · simp [hx]
-        · simp at hx
+        rcases mem_seq_f.mp hx with hx | ⟨hn, _⟩
+        · exact (SymSet.mem_append _ _ _).mpr (Or.inr hx)
+        · rw [hien] at hn; cases hn
       · intro x hx
-        simp only [Abs.seq, List.mem_append, if_true] at hx
-        rcases hx with hx | hx
-        · exact List.mem_append.mpr hx
-        · simp [hx]
+        rcases mem_seq_l.mp hx with hx | ⟨_, hx⟩
+        · exact hx
+        · exact (SymSet.mem_append _ _ _).mpr (Or.inr hx)
     · simp only [hv, Bool.false_eq_true, if_false] at e3 e4
-      have := inLang_append e3 e4 (hcross _ IX _ e rfl rfl hc1)
+      have := inLang_append' e3 e4 (fun x hx y hy => inF_cross hc1 hx hy)
       refine inLang_weaken this (fun _ => rfl) ?_ ?_
       · intro x hx
-        simp only [Abs.seq, hxn, List.mem_append] at hx
-        rcases hx with hx | hx
-        · simp [hx]
-        · simp at hx
+        rcases mem_seq_f.mp hx with hx | ⟨hn, _⟩
+        · exact (SymSet.mem_append _ _ _).mpr (Or.inl hx)
+        · rw [hxn] at hn; cases hn
       · intro x hx
-        simp only [Abs.seq, List.mem_append, if_true] at hx
-        rcases hx with hx | hx
-        · exact List.mem_append.mpr hx
-        · simp [hx]
+        rcases mem_seq_l.mp hx with hx | ⟨_, hx⟩
+        · exact hx
+        · exact (SymSet.mem_append _ _ _).mpr (Or.inl hx)
 
 end
 end CalmVerif.TokenAdj
